@@ -512,6 +512,10 @@ pub fn gen_c03(cx: &mut Ctx) {
             }
             cx.emit("C03", "not", &[Arg::F(a.clone())], false);
             cx.emit("C03", "forms", &[Arg::A(s("not")), Arg::F(a.clone()), Arg::F(a.clone())], false);
+            // the same object on both sides of a by-reference operator
+            for op in ["and.self", "or.self", "xor.self"] {
+                cx.emit("C03", op, &[Arg::F(a.clone())], true);
+            }
         }
     }
     // expressions: structural (flattening)
@@ -685,7 +689,41 @@ fn emit_cmp(cx: &mut Ctx, a: &Val, b: &Val, nt: bool, kind: usize) {
 // ================================================================================================
 // C05, C06, C07
 
+/// expression shapes the minterm families never contain: stacked negations, constants, one-operand
+/// and empty n-ary nodes, the same variable in both polarities
+fn shaped_exprs() -> Vec<E> {
+    let (a, b, c) = (lit("a"), lit("b"), lit("c"));
+    vec![
+        not(not(a.clone())),
+        not(not(not(a.clone()))),
+        and(vec![not(not(a.clone())), b.clone()]),
+        or(vec![not(not(not(b.clone()))), a.clone(), not(not(c.clone()))]),
+        not(and(vec![not(not(a.clone())), not(b.clone())])),
+        and(vec![a.clone(), not(a.clone()), b.clone()]),
+        or(vec![a.clone(), not(a.clone()), c.clone()]),
+        and(vec![a.clone()]),
+        or(vec![not(not(b.clone()))]),
+        and(vec![]),
+        or(vec![]),
+        and(vec![or(vec![]), a.clone()]),
+        or(vec![and(vec![]), not(not(a.clone()))]),
+        and(vec![cst(true), not(not(a.clone())), cst(false)]),
+        not(cst(true)),
+        not(not(cst(false))),
+        or(vec![and(vec![a.clone(), not(not(b.clone()))]), and(vec![not(a.clone()), c.clone()])]),
+    ]
+}
+
 pub fn gen_c05(cx: &mut Ctx) {
+    {
+        let keys = names(&["a", "b", "c", "zz"]);
+        let assignments = partial_assignments(&keys);
+        for e in shaped_exprs() {
+            for r in &assignments {
+                cx.emit("C05", "restrict", &[Arg::F(Val::E(e.clone())), Arg::V(r.clone())], true);
+            }
+        }
+    }
     for ns in small_name_sets(cx.thorough) {
         let mut keys = ns.clone();
         keys.push(s("zz"));
@@ -703,6 +741,20 @@ pub fn gen_c05(cx: &mut Ctx) {
                     let fixed = v.keys().filter(|k| ns.contains(k)).count();
                     let nt = fixed >= 2 || v.is_empty() || v.keys().any(|k| !ns.contains(k));
                     cx.emit("C05", "restrict", &[Arg::F(x.clone()), Arg::V(v.clone())], nt);
+                }
+                // runs of foreign keys in front of, between and behind the inputs, with and without a
+                // fixed input after them
+                for foreign in [vec!["0", "1"], vec!["0", "1", "2"], vec!["a0", "a1"], vec!["0", "a0", "a1", "b0"], vec!["zy", "zz"]] {
+                    for fix in subsets(&ns) {
+                        if fix.len() > 2 || cx.rng.below(2) == 0 {
+                            continue;
+                        }
+                        let mut v: BTreeMap<String, bool> = foreign.iter().map(|k| (k.to_string(), cx.rng.coin())).collect();
+                        for k in &fix {
+                            v.insert(k.clone(), cx.rng.coin());
+                        }
+                        cx.emit("C05", "restrict", &[Arg::F(x.clone()), Arg::V(v)], true);
+                    }
                 }
             }
         }
@@ -888,7 +940,46 @@ pub fn gen_c08(cx: &mut Ctx) {
 // ================================================================================================
 // C09, C10
 
+/// BDDs and tables that are the *direct result* of an operation of the crate (restrict, quantifiers,
+/// connectives with declared-only inputs): their observations must be those of a fresh object
+pub fn derived_objects(cx: &mut Ctx) -> Vec<Val> {
+    use biodivine_boolean_functions::traits::BooleanFunction;
+    let mut out = vec![];
+    let ns = names(&["a", "b", "c", "d", "e"]);
+    for _ in 0..cx.scale * if cx.thorough { 4000 } else { 300 } {
+        let k = 3 + cx.rng.below(3);
+        let vars: Vec<String> = ns[..k].to_vec();
+        let bits = random_bits(&mut cx.rng, k);
+        let which = cx.rng.pick(&vars).clone();
+        let val = cx.rng.coin();
+        let choice = cx.rng.below(3);
+        for kind in [1usize, 2] {
+            let x = fn_as(kind, &vars, &bits);
+            let r: BTreeMap<String, bool> = [(which.clone(), val)].into_iter().collect();
+            let vs: BTreeSet<String> = [which.clone()].into_iter().collect();
+            let derived = std::panic::catch_unwind(std::panic::AssertUnwindSafe(|| match (&x, choice) {
+                (Val::T(t), 0) => Val::T(t.restrict(&r)),
+                (Val::T(t), 1) => Val::T(t.existential_quantification(vs.clone())),
+                (Val::T(t), _) => Val::T(t.derivative(vs.clone())),
+                (Val::B(b), 0) => Val::B(b.restrict(&r)),
+                (Val::B(b), 1) => Val::B(b.existential_quantification(vs.clone())),
+                (Val::B(b), _) => Val::B(b.derivative(vs.clone())),
+                (v, _) => v.clone(),
+            }));
+            if let Ok(d) = derived {
+                out.push(d);
+            }
+        }
+    }
+    out
+}
+
 pub fn gen_c09(cx: &mut Ctx) {
+    for d in derived_objects(cx) {
+        for op in ["inputs", "essential", "degree", "essdegree"] {
+            cx.emit("C09", op, &[Arg::F(d.clone())], true);
+        }
+    }
     let pads: Vec<Vec<String>> = vec![names(&[]), names(&["p"]), names(&["0", "p"])];
     for ns in small_name_sets(cx.thorough) {
         for bits in all_functions(ns.len()) {
@@ -949,6 +1040,9 @@ pub fn gen_c10(cx: &mut Ctx) {
                 cx.emit("C10", "enum", &[Arg::F(x)], nt);
             }
         }
+    }
+    for d in derived_objects(cx) {
+        cx.emit("C10", "enum", &[Arg::F(d)], true);
     }
     // constants with zero variables
     for b in [false, true] {
